@@ -152,3 +152,15 @@ Print Assumptions c11_result_heap_sorted.
 Theorem c11_result_heap_permutation : forall l, Permutation l (key_sort l).
 Proof. exact key_sort_perm. Qed.
 Print Assumptions c11_result_heap_permutation.
+
+(* The client-side k-way merge of a multi-shard range scan (aggregateAndSortRangeScanAcrossShards, modelled in
+   Oxia.Client.Model with ResultHeap.Less = CompareWithSlash < 0): for every number of shards and every content, if each
+   per-shard stream is in the slash order then so is the merged scan, and without errors it is a permutation of the
+   per-shard streams (no loss, no duplication). Proved in Oxia.Client from the total-order laws above. *)
+From Oxia.Client Require Model Inst MergeProofs InstProofs.
+Theorem c11_merge_sorted : forall chans : list (list Oxia.Client.Model.item),
+  Forall (Sorted Oxia.Client.InstProofs.item_le_slash) chans ->
+  Sorted Oxia.Client.InstProofs.item_le_slash (Oxia.Client.Inst.merge_slash chans) /\
+  (Oxia.Client.MergeProofs.err_free (concat chans) -> Permutation (concat chans) (Oxia.Client.Inst.merge_slash chans)).
+Proof. exact Oxia.Client.InstProofs.merge_slash_sorted_perm. Qed.
+Print Assumptions c11_merge_sorted.
